@@ -56,10 +56,10 @@ BOUND = {
     'quick': 'all sets of <=2 constants (basic templates) and the connected 3-constant sets without dangling hashes x all '
              'scripts with <=2 occupied slots; histories for every constant of every set (3 orders at the root and first fitting slot, A-B-A at the others); '
              'literal sets: 27 literals x 3 data embeddings + 19 PUSH int x scripts with <=1 occupied slot; ContractInterface leg for sets of <=2 constants (scripts with <=1 occupied slot; <=2 for sets of <=1); '
-             'worlds: every set x all <=6 registration orders x {register_global_constant, constructor mapping} (ContractInterface leg on every world)',
+             'worlds: every set x all <=6 registration orders x {register_global_constant, constructor mapping} (ContractInterface leg on every basic-template world)',
     'thorough': 'all sets of <=3 constants (basic templates) x scripts with <=2 occupied slots; sets of <=2 constants over the '
                 'extended templates x scripts with <=3 occupied slots; histories and literal sets as quick (literal sets x scripts with <=2 occupied slots); ContractInterface leg for sets of <=2 constants (scripts with <=2 occupied slots); '
-                'worlds: every set x all <=6 registration orders x {register_global_constant, constructor mapping} (ContractInterface leg on worlds of <=2 constants and of 3 with an inner reference)',
+                'worlds: every set x all <=6 registration orders x {register_global_constant, constructor mapping} (ContractInterface leg on basic-template worlds of <=2 constants and of 3 with an inner reference; the extended templates yield scripts the type parser rejects for reasons unrelated to constants)',
 }
 ASSUMPTIONS = [
     'the Tezos expression hash of a registered expression is the script-expression hash of that expression as given to '
@@ -638,7 +638,7 @@ def cases_of(spec, tier):
         nested = any(isinstance(f, int) for c in s for f in c[2])
         for perm in itertools.permutations(range(len(s))):
             for mode in ('register', 'dict'):
-                yield dict(base, entry='world', mode=mode, perm=list(perm), iface=(len(s) <= 2 or nested))
+                yield dict(base, entry='world', mode=mode, perm=list(perm), iface=(alpha == 'basic' and (len(s) <= 2 or nested)))
         yield dict(base, entry='keys')
         for j, c in enumerate(s):
             yield dict(base, entry='root', const=j)
